@@ -1,5 +1,8 @@
 //! C16: the generation guard of the read cache.
 use super::*;
+#[path = "lock_stubs.rs"]
+mod lock_stubs;
+use lock_stubs::*;
 
 fn rec(ts: u64, refcount: u32) -> Arc<Record> {
     let r = Record::new(vec![b'k'], Vec::new(), ts);
@@ -11,11 +14,10 @@ fn rec(ts: u64, refcount: u32) -> Arc<Record> {
 /// generation} x {untagged insert, same generation, other generation} with symbolic timestamps and
 /// refcounts: a retired (refcount 0) incoming generation is never cached; an incoming generation never
 /// displaces a LIVE cached generation that is not older; everything else is allowed.
-fn noop_bytes_drop(_b: &mut bytes::Bytes) {}
 
 #[kani::proof]
 #[kani::unwind(3)]
-#[kani::stub(<bytes::Bytes as std::ops::Drop>::drop, noop_bytes_drop)]
+#[kani::stub(std::sync::Arc::drop_slow, noop_drop_slow)]
 fn c16_can_replace_generation() {
     let ts_c: u64 = kani::any();
     let ts_i: u64 = kani::any();
